@@ -66,3 +66,15 @@ Definition closest2_ok : Prop := exists t, lookup "closestPointOnLine_2_f32" cat
   evalT env t = Some (true, if Rle_dec tt 0 then [Bv env 0; Bv env 1] else if Rle_dec d tt then [Cv' env 0; Cv' env 1] else [Bv env 0 + dx * tt; Bv env 1 + dy * tt]).
 Lemma closest2_def : closest2_ok.
 Proof. unfold closest2_ok. eexists; split; [vm_compute; reflexivity|]. intros env. cbv zeta. unfold A, Bv, Cv'. ev. split_dec; try reflexivity; try (exfalso; lra). Qed.
+(* lMaxNorm = the largest absolute component (difference); lxNorm(v, 3) = (|x|^3 + |y|^3 + |z|^3)^(1/3) *)
+Definition lMaxNorm_ok : Prop := exists t, lookup "lMaxNorm_3_f32" cat = Some t /\ forall env, evalT env t = Some (true, [Rmax (Rmax (Rabs (A env 0)) (Rabs (A env 1))) (Rabs (A env 2))]).
+Lemma lMaxNorm_def : lMaxNorm_ok. Proof. unfold lMaxNorm_ok. start. unfold Rmax, Rabs. split_dec; try (exfalso; lra); lists lra. Qed.
+Definition lMaxNorm2_ok : Prop := exists t, lookup "lMaxNorm2_3_f32" cat = Some t /\ forall env,
+  evalT env t = Some (true, [Rmax (Rmax (Rabs (Bv env 0 - A env 0)) (Rabs (Bv env 1 - A env 1))) (Rabs (Bv env 2 - A env 2))]).
+Lemma lMaxNorm2_def : lMaxNorm2_ok. Proof. unfold lMaxNorm2_ok. start. unfold Rmax, Rabs. split_dec; try (exfalso; lra); lists lra. Qed.
+Definition lxNorm_ok : Prop := exists t, lookup "lxNorm_3_f32" cat = Some t /\ forall env,
+  evalT env t = Some (true, [Rpower (Rpower (Rabs (A env 0)) 3 + Rpower (Rabs (A env 1)) 3 + Rpower (Rabs (A env 2)) 3) (1 / 3)]).
+Lemma lxNorm_def : lxNorm_ok. Proof. unfold lxNorm_ok. start. unfold Rabs. split_dec; try (exfalso; lra); lists ltac:(first [reflexivity | (repeat f_equal; lra)]). Qed.
+Definition lxNorm2_ok : Prop := exists t, lookup "lxNorm2_3_f32" cat = Some t /\ forall env,
+  evalT env t = Some (true, [Rpower (Rpower (Rabs (Bv env 0 - A env 0)) 3 + Rpower (Rabs (Bv env 1 - A env 1)) 3 + Rpower (Rabs (Bv env 2 - A env 2)) 3) (1 / 3)]).
+Lemma lxNorm2_def : lxNorm2_ok. Proof. unfold lxNorm2_ok. start. unfold Rabs. split_dec; try (exfalso; lra); lists ltac:(first [reflexivity | (repeat f_equal; lra)]). Qed.
